@@ -15,13 +15,13 @@ def check(run, tier, seed, replay=None, only=None):
     quick = tier == "quick"
     run.extra["rule"] = "random (nfft, winlen, overlap, window, segments, tone on a 1/8-bin grid, scaling); distinct = event records"
     run.trusted = ["TLC", "spec/Spectrum.tla", "long-double sums over the input for the power clauses (T3)"]
-    k = 1 if quick else 6
+    k = 2 if quick else 8
     stages = []
     for s in range(3 * k):
-        stages.append(("tone-%d" % s, ["--mode", "tone", "--budget", 150, "--seed", seed * 100 + s]))
+        stages.append(("tone-%d" % s, ["--mode", "tone", "--budget", 300, "--seed", seed * 100 + s]))
     for s in range(2 * k):
-        stages.append(("power-%d" % s, ["--mode", "power", "--budget", 120, "--seed", seed * 100 + 30 + s]))
-        stages.append(("cohere-%d" % s, ["--mode", "cohere", "--budget", 150, "--seed", seed * 100 + 60 + s]))
+        stages.append(("power-%d" % s, ["--mode", "power", "--budget", 300, "--seed", seed * 100 + 30 + s]))
+        stages.append(("cohere-%d" % s, ["--mode", "cohere", "--budget", 300, "--seed", seed * 100 + 60 + s]))
     n = simple.run_check(run, tier, seed, replay, "spectrum_drv", "Trace_Spectrum.tla",
                          [("MC_Spectrum.tla", "MC_Spectrum.cfg", "MC_Spectrum (label maps, segment arithmetic)")], stages)
     run.clause("output lengths, labels, non-negativity, coherence range", "T1", n or 0)
